@@ -9,7 +9,7 @@
     rogw/tranp/dsn/module.py         ModuleDSN.full_joined / local_joined / expand_elements / parsed / expanded / identify /
                                      __init__ (module_path, local_path) / elements / join
     rogw/tranp/semantics/finder.py   (as in Scope.lean)
-    rogw/tranp/syntax/node/node.py:113-160, definition/primary.py:113, definition/statement_compound.py:743-836
+    rogw/tranp/syntax/node/node.py:113-160, definition/primary.py:113, definition/statement_compound.py:743-839
 
   A `ModuleDSN` object is represented by its `dsn` string; `module_path`/`local_path` are `parsed dsn`.
 -/
@@ -217,19 +217,17 @@ structure DVarS where
   scope : Str
 deriving DecidableEq, Repr
 
-/-- `decl_var.domain_name == add_var.domain_name and add_var.scope.startswith(decl_var.scope)` — a bare `startswith`
-    (statement_compound.py:826-831). -/
+/-- the test of `VarsCollector._merged` (statement_compound.py:826-834, as repaired in 526fc7c):
+    `decl_var.domain_name == add_var.domain_name`, and with `(dm, de) = ModuleDSN.expanded(decl_var.scope)`,
+    `(am, ae) = ModuleDSN.expanded(add_var.scope)`: `dm == am and ae[:len(de)] == de`. -/
 def related (d a : DVarS) : Bool :=
-  d.domainName = a.domainName && Str.startsWith a.scope d.scope
+  d.domainName = a.domainName &&
+    ((expanded d.scope).1 = (expanded a.scope).1 &&
+      decide ((expanded a.scope).2.take (expanded d.scope).2.length = (expanded d.scope).2))
 
 def merged (decl add : List DVarS) : List DVarS := mergedG DVarS.fullyname related decl add
 
 def collect (block : List (Stmt DVarS)) : List DVarS := collectBlockG DVarS.fullyname related [] block
-
-/-- the delimiter-aware test a repaired `_merged` would use: equal scopes, or the next character is a delimiter -/
-def relatedDelim (d a : DVarS) : Bool :=
-  d.domainName = a.domainName &&
-    (a.scope = d.scope || Str.startsWith a.scope (d.scope ++ dot) || Str.startsWith a.scope (d.scope ++ hash))
 
 /-! ### the codec between the layers (names are strings) -/
 
